@@ -31,6 +31,7 @@ import (
 	"github.com/sarchlab/akita/v5/mem/cache/writethroughcache"
 	"github.com/sarchlab/akita/v5/mem/dram"
 	"github.com/sarchlab/akita/v5/mem/idealmemcontroller"
+	"github.com/sarchlab/akita/v5/mem/memcontrolprotocol"
 	"github.com/sarchlab/akita/v5/mem/memprotocol"
 	"github.com/sarchlab/akita/v5/mem/simplebankedmemory"
 	"github.com/sarchlab/akita/v5/mem/vm"
@@ -78,6 +79,8 @@ type Config struct {
 	TLBWays   int    `json:"tlb_ways"`   //
 	DriverMHz uint64 `json:"driver_mhz"` // driver frequency in MHz (others run at 1 GHz)
 	Preset    string `json:"preset"`     // DRAM preset: DDR4, DDR5, HBM2, HBM3, GDDR6 (kind "dram" / "wbdram")
+	Ops2      []Op   `json:"ops2"`       // workload of an optional second driver on the same top connection
+	Ctrl      []Ctrl `json:"ctrl"`       // control-protocol history issued by the first driver
 }
 
 // Normalize fills defaults.
@@ -125,19 +128,34 @@ func (c *Config) Normalize() {
 
 // ---------------------------------------------------------------- driver
 
+// Ctrl is one control-protocol command issued by the first driver: it is sent to
+// component Target's "Control" port once After operations have been answered and
+// the previous command was acknowledged.
+type Ctrl struct {
+	After  int      `json:"after"`
+	Target string   `json:"target"`          // component name: MemCtrl, L1, L2, Mem, DRAM, TLB, L2TLB, MMU, AT
+	Cmd    int      `json:"cmd"`             // memcontrolprotocol.Command
+	Addrs  []uint64 `json:"addrs,omitempty"` // Invalidate / Flush address filter (empty = everything)
+}
+
 // DriverSpec is the immutable driver configuration (the whole op list).
 type DriverSpec struct {
-	Freq    timing.Freq `json:"freq"`
-	OpWrite []bool      `json:"op_write"` // Spec types may not nest structs: three parallel slices
-	OpAddr  []uint64    `json:"op_addr"`
-	OpVal   []uint32    `json:"op_val"`
-	Window  int         `json:"window"`
+	Freq       timing.Freq `json:"freq"`
+	OpWrite    []bool      `json:"op_write"` // Spec types may not nest structs: parallel slices
+	OpAddr     []uint64    `json:"op_addr"`
+	OpVal      []uint32    `json:"op_val"`
+	Window     int         `json:"window"`
+	CtrlAfter  []int       `json:"ctrl_after"`
+	CtrlTarget []string    `json:"ctrl_target"`
+	CtrlCmd    []int       `json:"ctrl_cmd"`
+	CtrlAddrN  []int       `json:"ctrl_addr_n"` // number of filter addresses of each command ...
+	CtrlAddrs  []uint64    `json:"ctrl_addrs"`  // ... taken consecutively from this flat list
 }
 
 // NumOps is the number of operations.
 func (s DriverSpec) NumOps() int { return len(s.OpAddr) }
 
-// Resp is one response as the driver saw it.
+// Resp is one response as the driver saw it (Op = -1-k for the k-th control response).
 type Resp struct {
 	Op    int    `json:"op"`
 	Write bool   `json:"w"`
@@ -145,26 +163,35 @@ type Resp struct {
 	Time  uint64 `json:"t"`
 }
 
-// DriverState is the fully serialized mutable state.
+// DriverState is the fully serialized mutable state. Todo is PRE-POPULATED by
+// setup with every op index and entries are deleted as ops are answered, so a
+// restore that merged instead of replacing State would resurrect finished work.
 type DriverState struct {
-	Next    int            `json:"next"`
-	Pending map[uint64]int `json:"pending"` // request ID -> op index
-	Log     []Resp         `json:"log"`
+	Todo        map[int]bool   `json:"todo"`
+	Pending     map[uint64]int `json:"pending"` // request ID -> op index
+	Answered    int            `json:"answered"`
+	CtrlNext    int            `json:"ctrl_next"`
+	CtrlPending uint64         `json:"ctrl_pending"` // ID of the unacknowledged control request, 0 = none
+	Log         []Resp         `json:"log"`
 }
 
-// Driver issues Spec.Ops in order with at most Window requests in flight and
-// never two in-flight requests to the same 64-byte line.
+// Driver issues the smallest unanswered, not-in-flight op of Spec.Ops with at
+// most Window requests in flight and never two in-flight requests to the same
+// 64-byte line.
 type Driver struct {
 	*modeling.Component[DriverSpec, DriverState, modeling.None]
-	low messaging.Port
-	eng timing.Engine
-	PID vm.PID
+	low     messaging.Port
+	eng     timing.Engine
+	ctrlDst map[string]messaging.RemotePort
+	PID     vm.PID
 }
 
 type driverMW struct{ d *Driver }
 
 func (m *driverMW) Tick() bool {
 	p := m.recv()
+	p = m.recvCtrl() || p
+	p = m.sendCtrl() || p
 	return m.send() || p
 }
 
@@ -180,11 +207,15 @@ func (m *driverMW) recv() bool {
 	case memprotocol.WriteDoneRsp:
 		if idx, ok := st.Pending[rsp.RspTo]; ok {
 			delete(st.Pending, rsp.RspTo)
+			delete(st.Todo, idx)
+			st.Answered++
 			st.Log = append(st.Log, Resp{idx, true, 0, now})
 		}
 	case memprotocol.DataReadyRsp:
 		if idx, ok := st.Pending[rsp.RspTo]; ok {
 			delete(st.Pending, rsp.RspTo)
+			delete(st.Todo, idx)
+			st.Answered++
 			var v uint32
 			if len(rsp.Data) >= 4 {
 				v = binary.LittleEndian.Uint32(rsp.Data)
@@ -195,23 +226,94 @@ func (m *driverMW) recv() bool {
 	return true
 }
 
+func (m *driverMW) recvCtrl() bool {
+	d := m.d
+	if len(d.Spec().CtrlCmd) == 0 {
+		return false
+	}
+	msg := d.GetPortByName("Ctrl").RetrieveIncoming()
+	if msg == nil {
+		return false
+	}
+	st := &d.State
+	if rsp, ok := msg.(memcontrolprotocol.Rsp); ok && rsp.RspTo == st.CtrlPending {
+		st.CtrlPending = 0
+		ok := uint32(0)
+		if rsp.Success {
+			ok = 1
+		}
+		st.Log = append(st.Log, Resp{-st.CtrlNext, false, ok, uint64(d.eng.CurrentTime())})
+		if rsp.Success && rsp.Command == memcontrolprotocol.CmdReset {
+			// a reset drops the requests in flight below: forget them, they stay in Todo
+			st.Pending = map[uint64]int{}
+		}
+	}
+	return true
+}
+
+func (m *driverMW) sendCtrl() bool {
+	d := m.d
+	st := &d.State
+	spec := d.Spec()
+	if st.CtrlPending != 0 || st.CtrlNext >= len(spec.CtrlCmd) || st.Answered < spec.CtrlAfter[st.CtrlNext] {
+		return false
+	}
+	port := d.GetPortByName("Ctrl")
+	if !port.CanSend() {
+		return false
+	}
+	dst, ok := d.ctrlDst[spec.CtrlTarget[st.CtrlNext]]
+	if !ok {
+		st.CtrlNext++
+		return true
+	}
+	req := memcontrolprotocol.Req{Command: memcontrolprotocol.Command(spec.CtrlCmd[st.CtrlNext])}
+	off := 0
+	for i := 0; i < st.CtrlNext; i++ {
+		off += spec.CtrlAddrN[i]
+	}
+	if n := spec.CtrlAddrN[st.CtrlNext]; n > 0 {
+		req.Addresses = append([]uint64(nil), spec.CtrlAddrs[off:off+n]...)
+	}
+	req.ID = timing.GetIDGenerator().Generate()
+	req.Src = port.AsRemote()
+	req.Dst = dst
+	req.TrafficBytes = 8
+	req.TrafficClass = "memcontrolprotocol.Req"
+	port.Send(req)
+	st.CtrlPending = req.ID
+	st.CtrlNext++
+	return true
+}
+
 func (m *driverMW) send() bool {
 	d := m.d
 	st := &d.State
 	spec := d.Spec()
-	if st.Next >= spec.NumOps() || len(st.Pending) >= spec.Window {
+	if len(st.Pending) >= spec.Window {
+		return false
+	}
+	inflight := map[int]bool{}
+	lines := map[uint64]bool{}
+	for _, idx := range st.Pending { // order-independent: builds two sets
+		inflight[idx] = true
+		lines[spec.OpAddr[idx]/64] = true
+	}
+	next := -1
+	for i := 0; i < spec.NumOps(); i++ {
+		if st.Todo[i] && !inflight[i] {
+			next = i
+			break
+		}
+	}
+	if next < 0 || lines[spec.OpAddr[next]/64] {
 		return false
 	}
 	port := d.GetPortByName("Mem")
 	if !port.CanSend() {
 		return false
 	}
-	op := Op{spec.OpWrite[st.Next], spec.OpAddr[st.Next], spec.OpVal[st.Next]}
-	for _, idx := range st.Pending { // order-independent: any conflict blocks
-		if spec.OpAddr[idx]/64 == op.Addr/64 {
-			return false
-		}
-	}
+	op := Op{spec.OpWrite[next], spec.OpAddr[next], spec.OpVal[next]}
 	id := timing.GetIDGenerator().Generate()
 	if op.Write {
 		req := memprotocol.WriteReq{}
@@ -237,33 +339,46 @@ func (m *driverMW) send() bool {
 		req.TrafficClass = "memprotocol.ReadReq"
 		port.Send(req)
 	}
-	st.Pending[id] = st.Next
-	st.Next++
+	st.Pending[id] = next
 	return true
 }
 
-// Done reports whether every op was answered.
+// Done reports whether every op was answered and every control command acknowledged.
 func (d *Driver) Done() bool {
-	return d.State.Next == d.Spec().NumOps() && len(d.State.Pending) == 0
+	return len(d.State.Todo) == 0 && len(d.State.Pending) == 0 &&
+		d.State.CtrlNext == len(d.Spec().CtrlCmd) && d.State.CtrlPending == 0
 }
 
-func buildDriver(reg modeling.Registrar, c *Config, low messaging.Port) *Driver {
+func buildDriver(reg modeling.Registrar, c *Config, name string, ops []Op, ctrl []Ctrl, low messaging.Port) *Driver {
 	spec := DriverSpec{Freq: timing.Freq(c.DriverMHz) * timing.MHz, Window: c.Window}
-	for _, op := range c.Ops {
+	for _, op := range ops {
 		spec.OpWrite = append(spec.OpWrite, op.Write)
 		spec.OpAddr = append(spec.OpAddr, op.Addr)
 		spec.OpVal = append(spec.OpVal, op.Val)
 	}
+	for _, k := range ctrl {
+		spec.CtrlAfter = append(spec.CtrlAfter, k.After)
+		spec.CtrlTarget = append(spec.CtrlTarget, k.Target)
+		spec.CtrlCmd = append(spec.CtrlCmd, k.Cmd)
+		spec.CtrlAddrN = append(spec.CtrlAddrN, len(k.Addrs))
+		spec.CtrlAddrs = append(spec.CtrlAddrs, k.Addrs...)
+	}
 	mc := modeling.NewBuilder[DriverSpec, DriverState, modeling.None]().
-		WithEngine(reg.GetEngine()).WithFreq(spec.Freq).WithSpec(spec).Build("Driver")
-	mc.State = DriverState{Pending: map[uint64]int{}, Log: []Resp{}}
+		WithEngine(reg.GetEngine()).WithFreq(spec.Freq).WithSpec(spec).Build(name)
+	mc.State = DriverState{Todo: map[int]bool{}, Pending: map[uint64]int{}, Log: []Resp{}}
+	for i := range ops {
+		mc.State.Todo[i] = true
+	}
 	mc.DeclarePort("Mem")
-	d := &Driver{Component: mc, low: low, eng: reg.GetEngine(), PID: 1}
+	mc.DeclarePort("Ctrl")
+	d := &Driver{Component: mc, low: low, eng: reg.GetEngine(), PID: 1, ctrlDst: map[string]messaging.RemotePort{}}
 	mc.AddMiddleware(&driverMW{d: d})
 	reg.RegisterComponent(d)
-	p := modeling.MakePortBuilder().WithRegistrar(reg).WithComponent(d).
-		WithSpec(modeling.PortSpec{BufSize: c.PortBuf}).Build("Mem")
-	d.AssignPort("Mem", p)
+	for _, pn := range []string{"Mem", "Ctrl"} {
+		p := modeling.MakePortBuilder().WithRegistrar(reg).WithComponent(d).
+			WithSpec(modeling.PortSpec{BufSize: c.PortBuf}).Build(pn)
+		d.AssignPort(pn, p)
+	}
 	return d
 }
 
@@ -275,6 +390,7 @@ type Sim struct {
 	Sim     *simulation.Simulation // nil when built Bare
 	Engine  *timing.SerialEngine
 	Driver  *Driver
+	Driver2 *Driver // nil unless Config.Ops2 is set
 	Storage *mem.Storage
 	Dir     string
 	Trace   *EventTrace
@@ -394,8 +510,36 @@ func Build(c *Config, opt Options) *Sim {
 	default:
 		panic("asm: unknown kind " + c.Kind)
 	}
-	out.Driver = buildDriver(s, c, top)
-	connect(s, "ConnDriver", out.Driver.GetPortByName("Mem"), top)
+	out.Driver = buildDriver(s, c, "Driver", c.Ops, c.Ctrl, top)
+	dconn := directconnection.MakeBuilder().WithRegistrar(s).Build("ConnDriver")
+	dconn.PlugIn(out.Driver.GetPortByName("Mem"))
+	dconn.PlugIn(top)
+	if len(c.Ops2) > 0 {
+		out.Driver2 = buildDriver(s, c, "Driver2", c.Ops2, nil, top)
+		out.Driver2.PID = out.Driver.PID
+		dconn.PlugIn(out.Driver2.GetPortByName("Mem"))
+	}
+	// one control connection from the first driver to every component's Control port
+	cconn := directconnection.MakeBuilder().WithRegistrar(s).Build("ConnCtrl")
+	cconn.PlugIn(out.Driver.GetPortByName("Ctrl"))
+	for _, comp := range out.Comps {
+		po, ok := comp.(interface {
+			GetPortByName(string) messaging.Port
+			Name() string
+		})
+		if !ok {
+			continue
+		}
+		var cp messaging.Port
+		if p, _ := tryPort(po, "Control"); p != nil {
+			cp = p
+		}
+		if cp == nil {
+			continue
+		}
+		cconn.PlugIn(cp)
+		out.Driver.ctrlDst[po.Name()] = cp.AsRemote()
+	}
 	if opt.EventTrace {
 		out.Trace = &EventTrace{}
 		out.Engine.AcceptHook(out.Trace)
@@ -496,8 +640,78 @@ func (o *Sim) buildVM(c *Config, l1top messaging.Port) messaging.Port {
 	return at.GetPortByName("Top")
 }
 
-// Start schedules the driver's first tick.
-func (o *Sim) Start() { o.Driver.TickLater() }
+func tryPort(po interface {
+	GetPortByName(string) messaging.Port
+}, name string) (p messaging.Port, err any) {
+	defer func() { err = recover() }()
+	return po.GetPortByName(name), nil
+}
+
+// Start schedules the drivers' first ticks.
+func (o *Sim) Start() {
+	o.Driver.TickLater()
+	if o.Driver2 != nil {
+		o.Driver2.TickLater()
+	}
+}
+
+// Done reports whether every driver finished.
+func (o *Sim) Done() bool { return o.Driver.Done() && (o.Driver2 == nil || o.Driver2.Done()) }
+
+// Logs returns the response logs of all drivers, concatenated.
+func (o *Sim) Logs() []Resp {
+	out := append([]Resp(nil), o.Driver.State.Log...)
+	if o.Driver2 != nil {
+		out = append(out, Resp{Op: -1000})
+		out = append(out, o.Driver2.State.Log...)
+	}
+	return out
+}
+
+// HookStateBuffers attaches h to every hooking.Hookable found (by reflection)
+// inside the State of every component: the queueing buffers and pipelines that
+// components keep in their state. Returns how many were hooked.
+func (o *Sim) HookStateBuffers(h hooking.Hook) int {
+	n := 0
+	var walk func(v reflect.Value, depth int)
+	walk = func(v reflect.Value, depth int) {
+		if depth > 6 {
+			return
+		}
+		if v.CanAddr() {
+			if hk, ok := v.Addr().Interface().(hooking.Hookable); ok && v.Kind() == reflect.Struct {
+				hk.AcceptHook(h)
+				n++
+				return
+			}
+		}
+		switch v.Kind() {
+		case reflect.Struct:
+			for i := 0; i < v.NumField(); i++ {
+				if v.Type().Field(i).IsExported() {
+					walk(v.Field(i), depth+1)
+				}
+			}
+		case reflect.Slice, reflect.Array:
+			for i := 0; i < v.Len(); i++ {
+				walk(v.Index(i), depth+1)
+			}
+		}
+	}
+	for _, c := range o.Comps {
+		cv := reflect.ValueOf(c)
+		for cv.Kind() == reflect.Ptr {
+			cv = cv.Elem()
+		}
+		if cv.Kind() != reflect.Struct {
+			continue
+		}
+		if f := cv.FieldByName("State"); f.IsValid() {
+			walk(f, 0)
+		}
+	}
+	return n
+}
 
 // Close terminates the simulation and removes its files.
 func (o *Sim) Close() {
